@@ -44,13 +44,13 @@ RS = {'probe': [2, 1], 'CubicSpline': [2, 1], 'Gaussian': [3, 1],
 NAMES = ('a', 'b', 'c')
 
 SIZES = {
-    'quick': dict(nh=15, nh3=6, hgrow=4, dims=(1, 2), dims3=('shepard', 'order1'),
+    'quick': dict(nh=14, nh3=6, hgrow=4, sym=3, dims=(1, 2), dims3=('shepard', 'order1'),
                   narrs=(1, 2), shipped=('CubicSpline', 'Gaussian'),
                   shipped_methods=('shepard', 'splash_norm'), nh_ship=16,
-                  periodic=('shepard', 'sph', 'order1'), nh_per=12,
+                  periodic=METHODS, nh_per=9,
                   design=('Interp.hist.cfg', 'Interp.f1.cfg',
                           'Interp.f2.cfg'), design_workers=4),
-    'thorough': dict(nh=150, nh3=60, hgrow=20, dims=(1, 2), dims3=METHODS,
+    'thorough': dict(nh=150, nh3=60, hgrow=20, sym=20, dims=(1, 2), dims3=METHODS,
                      narrs=(1, 2, 3),
                      shipped=('CubicSpline', 'Gaussian', 'QuinticSpline',
                               'WendlandQuintic'),
@@ -79,10 +79,26 @@ def rand_coord(rng, dim, lo, hi):
     c = [0, 0, 0]
     for k in range(dim):
         if PER and PER[k]:
-            c[k] = rng.randint(0, PER[k] - 1)      # inside the periodic box
+            # inside the periodic box, often next to its boundary
+            if rng.random() < 0.4:
+                c[k] = rng.choice((0, 1, PER[k] - 2, PER[k] - 1))
+            else:
+                c[k] = rng.randint(0, PER[k] - 1)
         else:
             c[k] = rng.randint(lo, hi)
     return c
+
+
+RHO = 'random'    # how the history being generated fills the rho property
+
+
+def rand_rho(rng, tiny=False):
+    """sph / splash divide by the given rho (1..3).  order1 computes the
+    density itself: rho is left unset (0), constant 5 or arbitrary."""
+    if tiny:
+        return 1
+    return {'unset': 0, 'const': 5, 'any': rng.randint(0, 6),
+            'random': rng.randint(1, 3)}[RHO]
 
 
 def gen_array(rng, name, props, dim, n, tiny, method=None, hvals=(1, 1, 2)):
@@ -90,8 +106,8 @@ def gen_array(rng, name, props, dim, n, tiny, method=None, hvals=(1, 1, 2)):
     for i in range(n):
         c = rand_coord(rng, dim, 0, span(dim, method))
         p.append(dict(x=c[0], y=c[1], z=c[2], h=rng.choice(hvals),
-                      m=rng.randint(1, 3),
-                      rho=1 if tiny else rng.randint(1, 3), f=0, g=0))
+                      m=rng.randint(1, 3), rho=rand_rho(rng, tiny), f=0,
+                      g=0))
     return dict(name=name, props=list(props), p=p)
 
 
@@ -151,8 +167,8 @@ def field_kind(rng, method):
     return rng.choice(('data',) * 6 + ('const', 'const', 'linear'))
 
 
-def gen_pts(rng, dim, api, method=None):
-    n = rng.randint(1, 5)
+def gen_pts(rng, dim, api, method=None, n=None):
+    n = n or rng.randint(1, 5)
     pts = []
     for i in range(n):
         if method == 'order1' and rng.random() < 0.75:
@@ -167,8 +183,13 @@ def gen_pts(rng, dim, api, method=None):
 def gen_history(rng, cfg, hid, first, family='plain'):
     """family: plain | tiny (lattice unit 2^-21, C14-abs-weight-threshold) |
     order (update_particle_arrays with permuted arrays, C14-array-order) |
-    hgrow (all h = 1 at first; h grows in place, then update())."""
+    hgrow (all h = 1 at first; h grows in place, then update()) |
+    sym (order1: sources point-symmetric about a target, odd linear field:
+    the field-weighted kernel sum vanishes there, the gradient does not)."""
+    global RHO
     dim, method, api = cfg['dim'], cfg['method'], cfg['api']
+    RHO = rng.choice(('unset', 'const', 'any')) if method == 'order1' \
+        else 'random'
     names = cfg['names']
     tiny = family == 'tiny'
     maxn = {1: 4, 2: 4, 3: 5}[dim] if len(names) == 1 else 3
@@ -186,13 +207,38 @@ def gen_history(rng, cfg, hid, first, family='plain'):
         ue = rng.choice((0, 0, 1, -2))
     else:
         ue = rng.choice((0, 0, -3, 2, 5, -7))
-    org = [rng.randint(-4, 4) if k < dim else 0 for k in range(3)]
+    # the real origin (lattice -org) lies inside the cloud: a coordinate
+    # omitted by set_interpolation_points (= 0) is a meaningful position
+    org = [-rng.randint(0, span(dim, method)) if k < dim else 0
+           for k in range(3)]
     if cfg.get('per_fixed'):
         ue, org = cfg['per_fixed']
+    # the user properties are scaled by an exact power of two
+    fe = 0 if tiny else rng.choice((0, 0, 0, -60, -50, 40))
     hv = (1,) if family == 'hgrow' else (1, 1, 2)
-    st = dict(src=gen_src(rng, cfg, tiny, first, maxn, hv),
-              pts=gen_pts(rng, dim, api, method))
+    st = dict(src=gen_src(rng, cfg, tiny, first, maxn, hv))
     user = ('f',) if api == 'eval' else ('f', 'g')
+
+    def new_points(n=None, full=False):
+        """New target points; WHICH of x, y, z are handed over varies
+        independently of their number (the others are omitted = real 0)."""
+        st['pts'] = gen_pts(rng, dim, api, method, n)
+        if api == 'eval' or full or rng.random() < 0.45:
+            st['pass'] = [True, True, True]
+        else:
+            st['pass'] = rng.choice(([True, False, False],
+                                     [True, True, False],
+                                     [True, False, True],
+                                     [False, True, False],
+                                     [False, True, True],
+                                     [False, False, True],
+                                     [True, False, False],
+                                     [True, True, False]))
+        for q in st['pts']:
+            for k, key in enumerate('xyz'):
+                if not st['pass'][k]:
+                    q[key] = -org[k]
+    new_points()
 
     def new_fields():
         st['lins'] = dict((p, set_field(rng, st['src'], dim,
@@ -203,7 +249,8 @@ def gen_history(rng, cfg, hid, first, family='plain'):
 
     def emit(act, prop='f'):
         steps.append(dict(act=act, src=copy.deepcopy(st['src']),
-                          pts=copy.deepcopy(st['pts']), prop=prop,
+                          pts=copy.deepcopy(st['pts']),
+                          **{'pass': list(st['pass'])}, prop=prop,
                           lin=copy.deepcopy(st['lins'].get(prop, ZERO_LIN))))
 
     def interpolate():
@@ -223,7 +270,7 @@ def gen_history(rng, cfg, hid, first, family='plain'):
         # targets two binning cells (of the h = 1 search) away from sources
         # that will grow: 3 lattice units along x, up to 1 across
         ps = [q for a in st['src'] for q in a['p']]
-        st['pts'] = st['pts'][:1]
+        new_points(1, full=True)
         for i in range(rng.randint(3, 5)):
             q = rng.choice(ps)
             c = [q['x'] + rng.choice((-3, 3)), q['y'], q['z']]
@@ -244,7 +291,61 @@ def gen_history(rng, cfg, hid, first, family='plain'):
                 moved()
             emit('MoveUpdate')
             interpolate()
-        return dict(id=hid, ue=ue, org=org, family=family, steps=steps)
+        return dict(id=hid, ue=ue, org=org, fe=fe, family=family,
+                    steps=steps)
+    if family == 'sym':
+        # the first target is a centre of symmetry of the sources
+        t = rand_coord(rng, dim, 1, span(dim, method) - 1)
+
+        def sym_src():
+            src = []
+            for nm in names:
+                p = []
+                if nm == names[0] and rng.random() < 0.6:
+                    p.append(dict(x=t[0], y=t[1], z=t[2],
+                                  h=rng.choice((1, 2)), m=rng.randint(1, 3),
+                                  rho=rand_rho(rng), f=0, g=0))
+                for i in range(rng.randint(2, 3) if len(names) == 1
+                               else rng.randint(1, 2)):
+                    while True:
+                        o = [rng.randint(-2, 2) if k < dim else 0
+                             for k in range(3)]
+                        if any(o):
+                            break
+                    h, m = rng.choice((1, 1, 2)), rng.randint(1, 3)
+                    for sg in (1, -1):
+                        p.append(dict(x=t[0] + sg * o[0], y=t[1] + sg * o[1],
+                                      z=t[2] + sg * o[2], h=h, m=m,
+                                      rho=rand_rho(rng), f=0, g=0))
+                src.append(dict(name=nm, props=list(cfg['props'][nm]), p=p))
+            return src
+
+        def odd_field():
+            b = [0, 0, 0]
+            while not any(b):
+                b = [rng.randint(-3, 3) if k < dim else 0 for k in range(3)]
+            a0 = -sum(b[k] * t[k] for k in range(3))
+            for a in st['src']:
+                for q in a['p']:
+                    q['f'] = a0 + b[0] * q['x'] + b[1] * q['y'] + b[2] * q['z']
+            st['lins'] = dict(f=dict(a=a0, b=b) | {'is': True},
+                              g=dict(NO_LIN))
+        st['src'] = sym_src()
+        new_points(rng.randint(1, 3), full=True)
+        st['pts'][0].update(x=t[0], y=t[1], z=t[2])
+        odd_field()
+        emit('Reset')
+        emit('Interpolate', 'f')
+        odd_field()
+        emit('SetValues')
+        emit('Interpolate', 'f')
+        st['src'] = sym_src()
+        odd_field()
+        emit('UpdateArrays')
+        emit('Interpolate', rng.choice(('f', 'f', 'zz')))
+        emit('Interpolate', 'f')
+        return dict(id=hid, ue=ue, org=org, fe=fe, family=family,
+                    steps=steps)
     for it in range(rng.randint(2, 5)):
         for rep in range(rng.choice((1, 1, 1, 2))):
             act = rng.choice(('SetPoints', 'UpdateArrays', 'UpdateArrays',
@@ -252,7 +353,8 @@ def gen_history(rng, cfg, hid, first, family='plain'):
             if family == 'order' and it == 1 and rep == 0:
                 act = 'UpdateArraysPermuted'
             if act == 'SetPoints':
-                st['pts'] = gen_pts(rng, dim, api, method)
+                # half of the time as many points as before
+                new_points(len(st['pts']) if rng.random() < 0.5 else None)
             elif act.startswith('UpdateArrays'):
                 st['src'] = gen_src(rng, cfg, tiny, False, maxn)
                 if act == 'UpdateArraysPermuted':
@@ -284,14 +386,14 @@ def gen_history(rng, cfg, hid, first, family='plain'):
                         if rng.random() < 0.5:
                             q['m'] = rng.randint(1, 3)
                         if rng.random() < 0.5 and not tiny:
-                            q['rho'] = rng.randint(1, 3)
+                            q['rho'] = rand_rho(rng)
                 new_fields()
             emit(act)
         if rng.random() < 0.9 or it == 0:
             interpolate()
     if steps[-1]['act'] != 'Interpolate':
         interpolate()
-    return dict(id=hid, ue=ue, org=org, family=family, steps=steps)
+    return dict(id=hid, ue=ue, org=org, fe=fe, family=family, steps=steps)
 
 
 def gen_sessions(tier, rng):
@@ -318,21 +420,27 @@ def gen_sessions(tier, rng):
                   rng.choice((['f', 'g'], ['g'], []))]
         cfg['props'] = dict(zip(NAMES, pr))
         if per:
+            # (the real origin inside the periodic box)
             cfg['per_fixed'] = (rng.choice((0, -2, 1)),
-                                [rng.randint(-4, 4) if k < dim else 0
+                                [-rng.randint(0, (per[k] or span(dim, method))
+                                              - 1) if k < dim else 0
                                  for k in range(3)])
         sid = 's%d' % len(sessions)
         hs = []
         hgrow = sz['hgrow'] if (kernel == 'probe' and api == 'interp'
                                 and not per) else 0
-        for i in range(nh + tiny + order + hgrow):
+        sym = sz['sym'] if (kernel == 'probe' and method == 'order1'
+                            and not per) else 0
+        for i in range(nh + tiny + order + hgrow + sym):
             fam = 'plain'
             if nh <= i < nh + tiny:
                 fam = 'tiny'
             elif nh + tiny <= i < nh + tiny + order:
                 fam = 'order'
-            elif i >= nh + tiny + order:
+            elif nh + tiny + order <= i < nh + tiny + order + hgrow:
                 fam = 'hgrow'
+            elif i >= nh + tiny + order + hgrow:
+                fam = 'sym'
             hs.append(gen_history(rng, cfg, '%s-h%d' % (sid, i), i == 0, fam))
         sessions.append(dict(sid=sid, cfg=cfg, histories=hs))
         PER = None
@@ -423,12 +531,14 @@ def universe_sessions(chk, rng, per_history=16):
             steps = []
             for j, src in enumerate(mine[i:i + per_history]):
                 lin = claim_linear(src)
-                st = dict(src=src, pts=pts, prop='f', lin=lin)
+                st = dict(src=src, pts=pts, prop='f', lin=lin,
+                          **{'pass': [True, True, True]})
                 steps.append(dict(st, act='Reset' if j % 4 == 0
                                   else 'UpdateArrays'))
                 steps.append(dict(st, act='Interpolate'))
             hs.append(dict(id='%s-h%d' % (sid, len(hs)),
                            ue=rng.choice((0, -3, 2)),
+                           fe=rng.choice((0, 0, -60)),
                            org=[rng.randint(-4, 4), 0, 0], family='universe',
                            steps=steps))
         sessions.append(dict(sid=sid, cfg=cfg, histories=hs))
@@ -535,7 +645,8 @@ def run_session(chk, ses, tag='', mutant=None, timeout=1500):
     by = {h['id']: h for h in ses['histories']}
     for t in traces:
         h = by[t['id']]
-        t['cfg'] = dict(ses['cfg'], ue=h['ue'])
+        t['cfg'] = dict(ses['cfg'], ue=h['ue'], fe=h.get('fe', 0),
+                        org=h['org'])
         t['names0'] = ses['cfg']['names']
         t['sid'] = ses['sid']
     return traces
@@ -561,7 +672,7 @@ def validate(chk, traces, tag='', per_batch=60):
             for t in ts[b::nb]:
                 cfg = dict((k, t['cfg'][k]) for k in (
                     'api', 'method', 'dim', 'kernel', 'exact', 'rs', 'ue',
-                    'per'))
+                    'fe', 'org', 'per'))
                 x = dict(id=t['id'], cfg=cfg, names0=t['names0'],
                          steps=t['steps'])
                 fp.write(json.dumps(x) + '\n')
